@@ -1,6 +1,88 @@
-//! C01 — not implemented yet.
+//! C01 — SQL answers agree with standard SQL semantics (umbrella).
+//!
+//! Generator: 1–3 small tables (2–4 columns over BIGINT/INTEGER/DOUBLE/VARCHAR/
+//! DATE/BOOLEAN, NULL density 0–35 %, tiny value domains → duplicates), random
+//! batch layout; statements from the full feature profile of `sqlgen`
+//! (projection, WHERE, joins of every kind, GROUP BY/HAVING, DISTINCT, ORDER
+//! BY/LIMIT/OFFSET, set operations, derived tables, CTEs, subqueries,
+//! CASE/COALESCE/NULLIF/IN/BETWEEN/LIKE/IS DISTINCT FROM).
+//! Oracle: `refsql` (independent naive evaluator, cross-checked against
+//! SQLite); comparison per DESIGN §3.4; an engine `Err` is allowed by the
+//! property ("otherwise the statement fails with an error").
+//!
+//! Two generated checks:
+//!  * `sql_core`  — the feature subset measured free of open findings, so any
+//!    disagreement there is new;
+//!  * `sql_full`  — everything; disagreements are attributed to an open finding
+//!    only through the signature predicates of `kf_sql`.
 use super::Property;
+use crate::kf_sql::classify_sql;
+use crate::runner::*;
+use crate::sqlcheck::*;
+use crate::sqlgen::*;
+
+fn families(c: &SqlCase) -> usize {
+    c.features
+        .iter()
+        .filter(|f| {
+            matches!(
+                f.as_str(),
+                "where" | "group_by" | "having" | "distinct" | "order_by" | "limit" | "cte" | "derived" | "exists" | "in_subquery" | "not_in_subquery" | "scalar_subquery"
+            ) || f.starts_with("join_")
+                || f.starts_with("union")
+                || f.starts_with("intersect")
+                || f.starts_with("except")
+        })
+        .count()
+}
+
+fn nontrivial(c: &SqlCase, o: &SqlOutcome) -> bool {
+    families(c) >= 2 && o.engine_rows.is_some() && o.null_or_dup_sensitive
+}
+
+pub fn core_profile(_t: Tier) -> Profile {
+    // everything measured clean on the unchanged tree (see DESIGN §11)
+    Profile::from_spec("minimal+logic+deep+in_list_null+like+is_distinct_from+bool_literals+distinct+order_by+limit+nulls_order+joins2+explicit_joins+outer_joins+residual_on+cross_joins+comma_joins")
+}
 
 pub fn property() -> Property {
-    Property { id: "C01", level: "exploration", assumptions: &[], checks: vec![] }
+    Property {
+        id: "C01",
+        level: "exploration",
+        assumptions: &[
+            "the reference evaluator refsql implements standard SQL semantics (cross-checked against SQLite by tools/sqlite_crosscheck.py)",
+            "engine-defined semantics (integer division, overflow, NaN/-0.0, ANY/ALL with NULL) are excluded by construction from the generator; statements producing -0.0 are discarded",
+            "an engine error is an allowed outcome (the property only forbids wrong answers)",
+        ],
+        checks: vec![
+            Box::new(SqlCheck {
+                name: "sql_core",
+                rule: "statement uses >=2 clause families, the engine returned an answer, and the reference answer changes under two-valued logic or under duplicate-blind (set) semantics",
+                profile: core_profile,
+                tables: default_tables,
+                quick_cases: 3000,
+                thorough_cases: 150_000,
+                tape_len: 220,
+                depth: 2,
+                nontrivial,
+                classify: classify_sql,
+                strategy: None,
+                profile_env: "C01_CORE_PROFILE",
+            }),
+            Box::new(SqlCheck {
+                name: "sql_full",
+                rule: "as sql_core, over the full statement grammar (group by/having, set operations, subqueries incl. correlated, 3-way joins)",
+                profile: |_| Profile::full(),
+                tables: default_tables,
+                quick_cases: 3000,
+                thorough_cases: 150_000,
+                tape_len: 220,
+                depth: 2,
+                nontrivial,
+                classify: classify_sql,
+                strategy: None,
+                profile_env: "C01_PROFILE",
+            }),
+        ],
+    }
 }
